@@ -21,17 +21,47 @@ def plan(tier):
     for op in filterset.OPS:
         for n in range(N + 1):
             pl.units.append(U("%s.n%d" % (op, n), "contracts.filterset", "h_op", (op, n), native_ok=True, sample_models=True))
+    from contracts import filterset_inv as fi
+    key = {"filter_exists": "filter_exists.value", "getfilter": None, "is_filter_disabled": None, "addfilter": None,
+           "removefilter": None, "enablefilter": None, "disablefilter": None, "movefilter_up": None, "movefilter_down": None,
+           "updatefilter": None, "replacefilter": None}
+    expect = {("addfilter", "absent"): ["addfilter.appends-one", "wf.names-stay-unique"], ("addfilter", "present"): ["addfilter.duplicate-raises"],
+              ("removefilter", "present"): ["removefilter.returns-True", "removefilter.later-move-up-by-one", "list.remove-hits-the-element-itself"],
+              ("movefilter_up", "present"): ["movefilter.returns-True", "movefilter.swaps-with-exactly-one-neighbour", "movefilter.unknown-or-at-the-end-returns-False"],
+              ("movefilter_down", "present"): ["movefilter.returns-True", "movefilter.swaps-with-exactly-one-neighbour", "movefilter.unknown-or-at-the-end-returns-False"],
+              ("enablefilter", "present"): ["enablefilter.returns-True", "enablefilter.already-enabled-returns-False"],
+              ("disablefilter", "present"): ["disablefilter.returns-True", "disablefilter.own-content-is-the-wrapped-one"],
+              ("getfilter", "present"): ["getfilter.returns-the-filters-own-content"],
+              ("updatefilter", "present-free"): ["updatefilter.returns-True", "updatefilter.renamed-in-place", "updatefilter.content-wrapped-iff-disabled"],
+              ("updatefilter", "present-clash"): ["updatefilter.name-clash-raises"],
+              ("replacefilter", "present-free"): ["replacefilter.returns-True", "replacefilter.content-is-the-given-filter"],
+              ("replacefilter", "present-clash"): ["replacefilter.name-clash-raises"]}
+    for op in fi.CASES:
+        for case in fi.CASES[op]:
+            pl.units.append(U("L.%s.%s" % (op, case), "contracts.filterset_inv", "h_inv", (op, case), setup=("contracts.filterset_inv", "setup"),
+                              expect=expect.get((op, case), [])))
+    pl.level = "proof"
     pl.bounded = [bounded_sequences]
     pl.functions = [("sievelib.factory", "FiltersSet.%s" % m) for m in
                     ("filter_exists", "addfilter", "updatefilter", "replacefilter", "getfilter", "removefilter", "enablefilter",
                      "disablefilter", "is_filter_disabled", "movefilter", "__isdisabled", "_unicode_filter_name")]
-    pl.trusted = ["list.remove / list.insert / += on lists of concrete length (executed by CPython itself on the concrete shape)"]
-    pl.unverified = ["list LENGTH: the deductive part fixes the number of filters (0..%d) and is symbolic in all names, flags and the "
-                     "argument (every aliasing pattern); lengths beyond that are covered only by the bounded operation sequences. "
-                     "A proof for all lengths needs quantified loop invariants over a heap of records, which the executor does not "
-                     "support" % N]
+    pl.trusted = ["model of list.remove (first equal element; the obligation `list.remove-hits-the-element-itself` shows it is the "
+                  "element's own position) / list.insert (position clamped into [0, n]) / += as array shifts (pyvc/reclist.py)",
+                  "filter contents as ids with two uninterpreted functions dis (has the `if false {}` shape) and inner (first child); "
+                  "for a real Command the facts are computed from the object by the real predicate",
+                  "replacefilter is given a filter object that is not itself of the disabled shape (input validity: the "
+                  "representation cannot tell such an object from a disabled filter)"]
+    pl.unverified = ["`rendering is wrapped in if false {} exactly when disabled` is carried by the content-shape predicate; that a "
+                     "content of that shape PRINTS as `if false {` is the serializer's contract (C04.S)"]
     pl.explanation = (
-        "Deductive, bounded in list length only: every operation is executed symbolically on a well-formed set of n = 0..%d "
+        "Deductive for sets of ANY length (units L.*): FiltersSet.filters is a record list of symbolic length (arrays per field), "
+        "each search loop is cut by the quantified invariant `no earlier filter has that name` (+ cpt = index for movefilter), "
+        "and for each operation and each case of a complete case split (name absent / present at position j; for update and "
+        "replace: new name same / free / taken by another filter) result, exception and the WHOLE resulting list are proved "
+        "pointwise over Skolem positions -- others untouched, renamed in place, status kept, swap with exactly one neighbour, "
+        "later filters move up by one, duplicates raise and change nothing -- and the representation invariant (unique names, "
+        "flag = content shape, no double wrapping) is re-established, so it holds across any sequence of calls. "
+        "In addition (units <op>.n<k>), with a different encoding and a CPython cross-check of every path: every operation is executed symbolically on a well-formed set of n = 0..%d "
         "filters with SYMBOLIC pairwise-distinct names, symbolic enabled flags and a symbolic argument (so hit / miss / clash "
         "at every position are all paths), and its result, exception and the whole resulting view are proved equal to the "
         "list specification taken from the property text (update/replace keep position and status, move swaps with exactly "
